@@ -39,6 +39,8 @@ type scenario struct {
 	Workers [][]bindOp `json:"workers"`
 	Sweep   bool       `json:"sweep"` // exhaust the ephemeral range first
 	SweepIP int        `json:"sweepIP,omitempty"` // 0: on the wildcard address; k>0: on the host's k-th address (mod), then other addresses must still have free ports
+	EarlyBind bool     `json:"earlyBind,omitempty"` // a wildcard port-0 bind (closed again) before the host is attached to the router
+	NilIPPort bool     `json:"nilIPPort,omitempty"` // binds to the wildcard address are written as &net.UDPAddr{Port: p} (nil IP)
 	NearFull int       `json:"nearFull"` // leave only this many ephemeral ports free before the workers start (0 = off)
 }
 
@@ -60,7 +62,7 @@ func gen(r *harn.Rng, tier string) interface{} {
 					k = 1
 				}
 				for j := 0; j < k; j++ {
-					o := r.Pick(1, 1, 2, 3, 4, 5, 10, 100, 200, 253, 254)
+					o := r.Pick(1, 1, 2, 3, 4, 5, 10, 100, 200, 253, 254, 255, 255, 0)
 					if r.Bool(0.2) {
 						o = r.Range(1, 254)
 					}
@@ -79,6 +81,8 @@ func gen(r *harn.Rng, tier string) interface{} {
 		return sc
 	}
 	sc.Kind = "bind"
+	sc.EarlyBind = r.Bool(0.3)
+	sc.NilIPPort = r.Bool(0.3)
 	sc.CIDR = "10.0.0.0/24"
 	nIP := r.Range(1, 3)
 	for i := 0; i < nIP; i++ {
@@ -123,7 +127,7 @@ func gen(r *harn.Rng, tier string) interface{} {
 		}
 		for i, n := 0, r.Range(2, 10); i < n; i++ {
 			x := r.Intn(100)
-			op := bindOp{IP: ips[r.Intn(len(ips))], Port: r.Pick(0, 0, 4000, 4000, 4001, 5000, 5001), V4: r.Bool(0.4)}
+			op := bindOp{IP: ips[r.Intn(len(ips))], Port: r.Pick(0, 0, 4000, 4000, 4001, 5000, 5001, 65535, 1), V4: r.Bool(0.4)}
 			switch {
 			case x < 35:
 				op.K = "listenudp"
@@ -313,6 +317,14 @@ func runBind(env *simrt.Env, sc *scenario) {
 	if err != nil {
 		env.Infra("NewNet: %v", err)
 		return
+	}
+	if sc.EarlyBind {
+		// the host is used before it has an eth0 address; whatever it remembers from now must
+		// not survive the attachment
+		if c, err := host.ListenUDP("udp", &net.UDPAddr{IP: net.IPv4zero, Port: 0}); err == nil {
+			_ = c.Close()
+			env.Probe("bind-before-attach")
+		}
 	}
 	if err := wan.AddNet(host); err != nil {
 		env.Infra("AddNet: %v", err)
@@ -544,7 +556,7 @@ func runBind(env *simrt.Env, sc *scenario) {
 				default:
 					ip := o.IP
 					var laddr *net.UDPAddr
-					if ip != "" {
+					if ip != "" && !(sc.NilIPPort && ip == "0.0.0.0" && o.Port != 0) {
 						laddr = &net.UDPAddr{IP: ipOf(ip, o.V4), Port: o.Port}
 					} else if o.Port != 0 {
 						laddr = &net.UDPAddr{Port: o.Port}
